@@ -9,14 +9,15 @@ Open Scope string_scope. Open Scope list_scope.
 Definition same_group (gs : list (list string)) (a b : string) : Prop :=
   exists g, In g gs /\ In a g /\ In b g.
 
-(* Every package is in exactly one group; at most [budget] groups (one group
-   when the budget is 0: "even if budget == 0, we want 1 group"); packages of
-   one origin share a group; a package whose `replaces` entry names an installed
-   package and is satisfied by its version shares that package's group. *)
+(* Every package is in exactly one group; for budgets from 0 upward at most
+   [budget] groups (the property text, read literally: "the layer count never
+   exceeds the budget plus the top layer"); packages of one origin share a
+   group; a package whose `replaces` entry names an installed package and is
+   satisfied by its version shares that package's group. *)
 Definition GroupsOk (rep_name : string -> string) (rep_sat : string -> pkg -> res bool)
     (pkgs : list pkg) (budget : Z) (gs : list (list string)) : Prop :=
   Permutation (List.concat gs) (map p_name pkgs) /\
-  (Z.of_nat (List.length gs) <= Z.max budget 1)%Z /\
+  ((0 <= budget)%Z -> (Z.of_nat (List.length gs) <= budget)%Z) /\
   (forall p q, In p pkgs -> In q pkgs -> p_origin p = p_origin q -> same_group gs (p_name p) (p_name q)) /\
   (forall p q rep, In p pkgs -> In q pkgs -> In rep (p_replaces p) -> rep_name rep = p_name q ->
                    rep_sat rep q = Ok true -> same_group gs (p_name p) (p_name q)).
@@ -31,7 +32,12 @@ Definition permb (a b : list string) : bool :=
 Definition groups_tags (rep_name : string -> string) (rep_sat : string -> pkg -> res bool)
     (pkgs : list pkg) (budget : Z) (gs : list (list string)) : list string :=
   tag_if (negb (permb (List.concat gs) (map p_name pkgs))) "viol:groups-not-a-partition" ++
-  tag_if (negb (Z.of_nat (List.length gs) <=? Z.max budget 1)%Z) "viol:group-count-exceeds-budget" ++
+  (* budget 0: the code keeps one group on purpose ("even if budget == 0, we want
+     1 group") — its own tag, so that any other excess is a different failure *)
+  (if (0 <=? budget)%Z && negb (Z.of_nat (List.length gs) <=? budget)%Z
+   then [if (budget =? 0)%Z then "viol:group-count-exceeds-budget/budget-zero"
+         else "viol:group-count-exceeds-budget"]
+   else []) ++
   tag_if (negb (forallb (fun p => forallb (fun q =>
       negb (String.eqb (p_origin p) (p_origin q)) || same_groupb gs (p_name p) (p_name q)) pkgs) pkgs))
     "viol:same-origin-split" ++
